@@ -45,6 +45,11 @@ def is_pos(x):
     return isinstance(x, int) and x > 0
 
 
+def first_is_known(vals):
+    """order-sensitive child of a multi-attribute restriction"""
+    return vals[0] in ("dev-util", "0")
+
+
 class Env:
     def __init__(self):
         from pkgcore.ebuild import restricts
@@ -68,7 +73,7 @@ class Env:
         class PK(VersionedCPV):
             def __init__(s, cat, pkg, ver, slot="0", iuse="", use="", repo="r0"):
                 super().__init__(cat, pkg, ver)
-                for k, v in dict(slot=slot, subslot=slot, iuse_stripped=frozenset(iuse), iuse=frozenset(iuse), use=frozenset(use),
+                for k, v in dict(slot=slot, subslot={"0": "1", "1": "0"}[slot], iuse_stripped=frozenset(iuse), iuse=frozenset(iuse), use=frozenset(use),
                                  repo=repos[repo]).items():
                     object.__setattr__(s, k, v)
 
@@ -87,8 +92,12 @@ class Env:
             for use in ("", "x", "y", "xy"):
                 if set(use) <= set(iuse):
                     pk.append(PK("c", "p", "1.0", "0", iuse, use, "r0"))
+        # the same version spelled differently, and what the =ver* globs of either spelling tell apart
+        for v in ("1.00", "1.0.5", "1.00.5", "1", "1-r0", "1.0-r0", "1.1-r0", "1.5", "10"):
+            pk.append(PK("c", "p", v, "0", "ab", "a", "r0"))
         self.pkgs = pk
-        self.strings = ["", "a", "A", "ab", "AB", "aB", "b", "ba", "xab", "Ab"]
+        self.strings = ["", "a", "A", "ab", "AB", "aB", "b", "ba", "xab", "Ab", "0", "1"]
+        self.lists = [["0"], ["1"], ["0", "1"], [], ["a"]]
         sets = [frozenset(c) for r in range(4) for c in itertools.combinations(FLAGS3, r)]
         pairs = [(frozenset(i), frozenset(u)) for i in ("", "a", "b", "ab") for u in ("", "a", "b", "ab") if set(u) <= set(i)]
         self.contvals = sets + pairs
@@ -106,6 +115,7 @@ class Env:
         self.leaves = {"1": restricts.CategoryDep("dev-util"), "2": restricts.PackageDep("diffball")}
         self.child = values.AnyMatch(values.EqualityMatch(1))
         self.funcs = {"f": is_even, "g": is_pos}
+        self.multi_child = {"first": values.FunctionRestriction(first_is_known), "any": values.AnyMatch(values.StrExactMatch("diffball"))}
         self.ru_ops = {"||": boolean.OrRestriction, "": boolean.AndRestriction, "^^": boolean.JustOneRestriction,
                        "??": boolean.AtMostOneOfRestriction}
 
@@ -118,8 +128,37 @@ class Env:
             ver, rev = _verrev(b)
             return (R._VersionMatch if k == "vm" else R.VersionMatch)(a, ver, rev, negate=n, **kw)
         if fam == "str":
-            cls = {"exact": V.StrExactMatch, "glob": V.StrGlobMatch, "regex": V.StrRegex}[k]
-            return cls(a, case_sensitive=m, negate=n, **kw)
+            if k == "glob":
+                return V.StrGlobMatch(a, case_sensitive=m, prefix=b != "alt", negate=n, **kw)
+            if k == "regex":
+                return V.StrRegex(a, case_sensitive=m, match=b == "alt", negate=n, **kw)
+            return V.StrExactMatch(a, case_sensitive=m, negate=n, **kw)
+        if fam == "atomver":
+            return self.atom(f"=c/p-{b}*" if a == "=*" else f"{a}c/p-{b}", negate_vers=n, **kw)
+        if fam == "multi":
+            return P.PackageRestrictionMulti(_tuple(a), self.multi_child[b], negate=n, **kw)
+        if fam == "prattr":
+            cls = P.PackageRestriction if k == "pr" else V.GetAttrRestriction
+            return cls(a, V.StrExactMatch(b), negate=n, ignore_missing=m, **kw)
+        if fam == "cond":
+            return P.Conditional("use", V.ContainmentMatch(a), tuple(self.leaves[c] for c in b), negate=n, **kw)
+        if fam == "misc":
+            leaf = self.leaves["1" if a == "0" else "2"]
+            if k == "eqm":
+                return V.EqualityMatch(a, negate=n, **kw)
+            if k == "anym":
+                return V.AnyMatch(V.StrExactMatch(a), negate=n, **kw)
+            if k == "always":
+                return self.restriction.AlwaysBool("package" if a == "0" else "values", negate=n, **kw)
+            if k == "cm2":
+                return V.ContainmentMatch2((a,), negate=n, **kw)
+            if k == "subslot":
+                return R.SubSlotDep(a, negate=n, **kw)
+            if k == "pkgdep":
+                return R.PackageDep("p" if a == "0" else "diffball", negate=n, **kw)
+            if k == "negate":
+                return self.restriction.Negate(leaf)
+            return self.restriction.FakeType(leaf, "values" if n else "package")
         if fam == "cont":
             if k == "cm":
                 return V.ContainmentMatch(_tuple(a), match_all=m, negate=n, **kw)
@@ -165,6 +204,8 @@ class Env:
             return self.funcvals if d["k"] == "func" else self.flatvals
         if fam == "depset":
             return self.usesets
+        if fam == "misc" and d["k"] in ("eqm", "anym", "cm2"):
+            return {"eqm": self.strings, "anym": self.lists, "cm2": self.contvals}[d["k"]]
         return self.pkgs
 
     def matches(self, d, obj):
@@ -184,7 +225,8 @@ class Env:
         return out
 
     def package_type(self, d):
-        return d["fam"] in ("pkgr", "use", "atom", "bool") or (d["fam"] == "vm" and d["k"] == "pvm")
+        return (d["fam"] in ("pkgr", "use", "atom", "bool", "atomver", "multi", "cond") or (d["fam"] == "vm" and d["k"] == "pvm")
+                or (d["fam"] == "prattr" and d["k"] == "pr") or (d["fam"] == "misc" and d["k"] in ("subslot", "pkgdep", "negate")))
 
 
 def observe_pair(env, x, y, tid):
@@ -245,7 +287,15 @@ def cache_events(env, x, y, ox, oy, eqs, tid0):
 # ---- random descriptions (code -> spec) ----
 POOL = dict(
     vm=dict(k=["vm", "pvm"], a=["<", "<=", "=", ">=", ">", "~"], b=["0.9", "1.0", "1.0-r1", "1.00", "2", "2-r1", "1.1"], n=[False, True], m=[False], st=[""]),
-    str=dict(k=["exact", "glob", "regex"], a=["a", "A", "ab", "AB", "b", "aB"], b=[""], n=[False, True], m=[False, True], st=[""]),
+    str=dict(k=["exact", "glob", "regex"], a=["a", "A", "ab", "AB", "b", "aB"], b=["", "alt"], n=[False, True], m=[False, True], st=[""]),
+    atomver=dict(k=["atom"], a=["=", "~", ">=", ">", "<=", "<", "=*"], b=["1.0", "1.00", "1.0-r0", "1", "1-r0", "1.1", "1.10", "1.1-r0", "01", "1.0.5", "1.00.5"],
+                 n=[False, True], m=[False], st=[""]),
+    multi=dict(k=["multi"], a=["category,package", "package,category", "slot,subslot", "subslot,slot", "category,slot", "slot,category", "category",
+                               "package", "category,package,slot", "slot,package,category"], b=["first", "any"], n=[False, True], m=[False], st=[""]),
+    prattr=dict(k=["pr", "getattr"], a=["category", "package", "slot", "subslot", "repo.repo_id", "key"], b=["dev-util", "0", "r0", "c/p"], n=[False, True],
+                m=[False, True], st=[""]),
+    cond=dict(k=["cond"], a=["a", "b", "a,b"], b=["1", "2", "12", "21", "11", "122"], n=[False, True], m=[False], st=[""]),
+    misc=dict(k=["eqm", "anym", "always", "cm2", "subslot", "pkgdep", "negate", "faketype"], a=["0", "1"], b=[""], n=[False, True], m=[False], st=[""]),
     cont=dict(k=["cm", "udc+", "udc-"], a=["a", "b", "a,b", "b,a", "a,b,c", "c,a,b", "a,a"], b=[""], n=[False, True], m=[False, True], st=[""]),
     pkgr=dict(k=["catdep", "pkgr", "slotdep", "repodep"], a=["dev-util", "dev-lib", "c", "0", "1"], b=[""], n=[False, True], m=[False, True], st=[""]),
     use=dict(k=["static", "default+", "default-"], a=["", "x", "y", "x,y", "y,x", "a", "a,b", "b,a"], b=["", "x", "y", "b", "a,b", "b,a"], n=[False], m=[False], st=[""]),
@@ -273,8 +323,8 @@ def valid(env, d):
         return d["a"] not in ("0", "1")
     if d["fam"] == "use":
         return bool(d["a"] or d["b"])
-    if d["fam"] == "atom":
-        if d["n"] and d["a"] in ("c/p", "dev-util/diffball"):
+    if d["fam"] in ("atom", "atomver"):
+        if d["fam"] == "atom" and d["n"] and d["a"] in ("c/p", "dev-util/diffball"):
             return False
         try:
             env.render(d)
@@ -349,6 +399,8 @@ def run(ck):
         cases.sort(key=lambda c: repr(c))
         ck.extra["exported_pairs"] = len(cases)
         for n, case in enumerate(cases):
+            if not (valid(env, case["x"]) and valid(env, case["y"])):
+                continue  # e.g. "~" with a revision: not an atom (C03's business)
             do_pair(case["x"], case["y"], "export", n % 11 == 0)
         ck.exhaustive = True
         ck.sample(dict(direction="spec->code", pair=meta[len(meta) // 3], event=events[len(meta) // 3]))
@@ -356,7 +408,7 @@ def run(ck):
         r_ = rng(7)
         fams = list(POOL)
         done = 0
-        while done < ck.pick(2000, 40000):
+        while done < ck.pick(2500, 40000):
             x = random_descr(r_, r_.choice(fams))
             if not valid(env, x):
                 continue
